@@ -47,10 +47,15 @@ Bad_NonEmptyHasCpus(S) ==
     {b.name : b \in {b \in Blns(S) : BCtrs(b) # {} /\ (BCpus(b) = {} \/ 1000 * Cardinality(BCpus(b)) < b.reqmilli)}}
 \* a member's allowed CPUs are exactly the balloon's CPUs plus its shared idle CPUs  (T: container -> cached cpuset;
 \* hyperthread hiding only ever removes sibling threads: then a non-empty subset is required)
-Bad_ToldIsCpusPlusShared(S, T, pinned, hide) ==
+\* with hyperthreads hidden: a subset of those CPUs with exactly one thread of every physical core they touch
+OneThreadPerCore(told, want, topo) ==
+    /\ told \subseteq want
+    /\ \A t \in {t \in topo : t.cpu \in want} :
+          Cardinality({u \in topo : u.cpu \in told /\ u.pkg = t.pkg /\ u.die = t.die /\ u.core = t.core}) = 1
+Bad_ToldIsCpusPlusShared(S, T, pinned, hide, topo) ==
     {c \in pinned : \E b \in BalloonsOf(S, c) :
         LET want == BCpus(b) \cup BShared(b)
-        IN IF hide[c] THEN ~(T[c] \subseteq want /\ T[c] # {}) ELSE T[c] # want}
+        IN IF hide[c] THEN ~OneThreadPerCore(T[c], want, topo) ELSE T[c] # want}
 
 \* shared idle CPUs include every idle non-isolated CPU in the balloon's configured sharing scope
 \*   topo: set of records [cpu, pkg, die, node, core, isolated]
@@ -109,7 +114,7 @@ BalloonState(S, ctrs, view, live, world, topo, cls) ==
             \cup {<<"Inv_MinMaxCpus", w>> : w \in Bad_MinMaxCpus(S)}
             \cup {<<"Inv_MinMaxInstances", w>> : w \in Bad_MinMaxInstances(S)}
             \cup {<<"Inv_NonEmptyHasCpus", w>> : w \in Bad_NonEmptyHasCpus(S)}
-            \cup {<<"Inv_ToldIsCpusPlusShared", w>> : w \in Bad_ToldIsCpusPlusShared(S, T, pinned, hide)}
+            \cup {<<"Inv_ToldIsCpusPlusShared", w>> : w \in Bad_ToldIsCpusPlusShared(S, T, pinned, hide, topo)}
             \cup {<<"Inv_SharedIdleCoversScope", w>> : w \in Bad_SharedIdleCoversScope(S, topo)}
             \cup {<<"Inv_SharedIdleNotIsolated", w>> : w \in Bad_SharedIdleIsolated(S, topo)}
             \cup {<<"Inv_CpuClass", w>> : w \in Bad_CpuClass(S, cls)}
